@@ -211,6 +211,15 @@ def r_smt_same_handle(ctx):
             ctx.violation("R-SMT-SAME-HANDLE", where, "serialises another solver object",
                           f"`{show(ev.data['recv'])[:60]}.{ev.data['name']}()` is written instead of the handle check() is called on",
                           f"{LOC}:{ev.site.lineno}")
+        # the export only reads the handle: check() on a z3.Optimize in Pareto mode moves to the next point of the front, model()
+        # / push() / pop() / reset() change what the next answering call sees
+        for ev in [e_ for e_ in run.events_of("mcall") if is_solver_handle(e_.data["recv"]) and e_.data["name"] not in ("to_smt2", "sexpr")
+                   and e_.site.func.endswith("export_to_smt2")]:
+            ctx.violation("R-SMT-SAME-HANDLE", where, f"the export calls {ev.data['name']}() on the solver handle",
+                          f"`{show(ev.data['recv'])[:40]}.{ev.data['name']}()` in export_to_smt2: exporting must leave the solver as it "
+                          f"found it (a check() consumes a point of a Pareto front, and is a solve the user did not ask for)",
+                          f"{LOC}:{ev.site.lineno}")
+        ser = [e_ for e_ in ser if e_.data["name"] in ("to_smt2", "sexpr")]
         if not ser:
             ctx.violation("R-SMT-SAME-HANDLE", where, "serialises the solver handle that check() is called on",
                           "no serialisation method is called on self._solver", LOC)
@@ -692,4 +701,69 @@ def r_names_resolve(ctx, modules=None, rule="R-NAMES-RESOLVE"):
 
 
 C17_RULES.append(lambda ctx: r_names_resolve(ctx, modules=("plotter", "solution")))
+# the renderers count periods with `range(solution.horizon + 1)`: the reported horizon is an asserted integer (R-HORIZON, shared)
+C17_RULES.append(lambda ctx: __import__("rules.tasks", fromlist=["x"]).r_horizon(ctx))
 C16_RULES.append(lambda ctx: r_names_resolve(ctx, modules=("excel_io", "solution", "base", "problem")))
+# 'the SMT-LIB export parses': distinct constants of the problem have distinct symbols (R-NAME-INJECTIVE, shared with C14)
+C16_RULES.append(lambda ctx: __import__("rules.naming", fromlist=["x"]).r_name_injective(ctx))
+
+
+def _roots(t, depth=0):
+    """the symbols an object term is reached from: through attributes, items, loop elements and the views / copies-by-reference that
+    hand out the same objects (values(), items(), get(), enumerate / zip / reversed / sorted of a container of objects).  A local
+    container filled in a loop (`carried:<name>`) is its own root."""
+    if not isinstance(t, tuple) or not t or depth > 12:
+        return set()
+    k = t[0]
+    if k == "sym":
+        return {t}
+    if k in ("attr", "idx"):
+        return _roots(t[1], depth + 1)
+    if k == "elem":
+        return _roots(t[1][3], depth + 1)
+    if k == "mcall":
+        return _roots(t[1], depth + 1)
+    if k == "call" and t[1].split(".")[-1] in ("enumerate", "zip", "reversed", "sorted", "list", "tuple", "iter"):
+        out = set()
+        for a in t[2]:
+            out |= _roots(a, depth + 1)
+        return out
+    if k == "phi" and len(t) == 4:
+        return _roots(t[2], depth + 1) | _roots(t[3], depth + 1)
+    return set()
+
+
+def r_report_readonly(ctx):
+    """the renderers and exporters only read the solution they are given: an in-place change of anything reachable from the
+    `solution` argument (a list method that modifies, an item or attribute store - also through a local alias) changes what the
+    user reads from the solution afterwards, e.g. a prepended instant in a buffer's change times after a Gantt rendering"""
+    MUT = ("insert", "append", "extend", "pop", "remove", "clear", "sort", "reverse", "update", "setdefault", "popitem", "add", "discard",
+           "__setitem__", "__delitem__")
+    sol = S("solution")
+    n = 0
+    for entry, where in ((GANTT, "plotter.render_gantt_matplotlib"),
+                         (Entry("func", module="excel_io", name="export_solution_to_excel_file"), "excel_io.export_solution_to_excel_file")):
+        for run in live_runs(ctx, entry, "R-REPORT-READONLY"):
+            n += 1
+            bad = []
+            for ev in run.events:
+                target = None
+                if ev.kind == "mcall" and ev.data["name"] in MUT:
+                    target, what = ev.data["recv"], f".{ev.data['name']}()"
+                elif ev.kind == "store":
+                    target, what = ev.data["container"], "[...] = ..."
+                elif ev.kind == "setattr":
+                    target, what = ev.data["obj"], f".{ev.data['attr']} = ..."
+                if isinstance(target, tuple) and sol in _roots(target):
+                    bad.append((show(target)[:100], what, ev.site.lineno))
+            for tgt, what, line in sorted(set(bad)):
+                ctx.violation("R-REPORT-READONLY", where, f"modifies {tgt[:60]}",
+                              f"`{tgt}{what}` changes an object of the solution it was given (line {line}): the solution read after the call is "
+                              f"not the one the solver reported", f"processscheduler/{where.split('.')[0]}.py:{line}")
+            if not bad:
+                ctx.ok("R-REPORT-READONLY", f"{where} [{describe_config(run)[:60]}]: the solution is only read", nontrivial=False)
+    ctx.floor("R-REPORT-READONLY", "renderer / exporter paths", n, 4)
+
+
+C17_RULES.append(r_report_readonly)
+C16_RULES.append(r_report_readonly)
